@@ -177,6 +177,13 @@ def check_tree(acc, w, t, stats=False):
         acc.viol("composite:not-an-observable:" + kinds_of(w, t), case, observed=repr(got))
         return
     try:
+        if len(w.space) > 1 and size(t) <= 2:
+            # the same composite object applied to another batch first (no value may be remembered)
+            v0 = call(got.apply, w.st, torch.flip(w.space, [0]))
+            v0 = np.broadcast_to(np.asarray(v0.numpy() if isinstance(v0, torch.Tensor) else v0, dtype=float), want.shape)
+            if not close(v0, want[::-1], 1e-12):
+                acc.viol("composite:value-on-second-batch:" + kinds_of(w, t), case, observed=v0, expected=want[::-1])
+                return
         v = call(got.apply, w.st, w.space)
         v = np.broadcast_to(np.asarray(v.numpy() if isinstance(v, torch.Tensor) else v, dtype=float), want.shape)
     except LibRaised as e:
